@@ -1,8 +1,28 @@
 import argparse
 import importlib
 import os
+import signal
 import sys
+import threading
 import traceback
+
+
+def watchdog(seconds, what):
+    """a check must end: a dead pool worker (or anything else that blocks for good) would otherwise hang it.  After
+    `seconds` the whole process group is ended with the infrastructure status 2 (never 1: a time-out is no violation)."""
+    def fire():
+        sys.stdout.write('INFRASTRUCTURE-ERROR in check %s: no result after %d s (watchdog)\n' % (what, seconds))
+        sys.stdout.flush()
+        try:
+            import multiprocessing
+            for c in multiprocessing.active_children():
+                c.kill()
+        except Exception:
+            pass
+        os._exit(2)
+    t = threading.Timer(seconds, fire)
+    t.daemon = True
+    t.start()
 
 
 def main():
@@ -18,6 +38,7 @@ def main():
             from harness import replay
             sys.exit(replay.main(a.path))
         from harness.common import Check
+        watchdog(int(os.environ.get('VERIF_WATCHDOG_S', '2400' if a.tier == 'quick' else '21600')), a.prop)
         mod = importlib.import_module('harness.props.%s' % a.prop.lower())
         chk = Check(a.prop.upper(), a.tier, a.seed, level=mod.META.get('category', 'proof'))
         chk.no_lean = a.no_lean
